@@ -81,6 +81,21 @@ def _short_repr(value, limit):
     return text if len(text) <= limit else None
 
 
+
+class _RecursionLimitGuard:
+    """
+    Started and stopped along with the patches of an execution: puts the
+    interpreter-wide recursion limit back to what it was, should the student's
+    code have changed it with ``sys.setrecursionlimit``.
+    """
+    def start(self):
+        self.limit = sys.getrecursionlimit()
+
+    def stop(self):
+        if sys.getrecursionlimit() != self.limit:
+            sys.setrecursionlimit(self.limit)
+
+
 class Sandbox:
     """
     Args:
@@ -684,6 +699,7 @@ class Sandbox:
             patch.dict('sys.modules', overridden_modules),
             patch.object(sys, 'stdout', self._current_stdout[-1]),
             patch.object(time, 'sleep', return_value=None),
+            _RecursionLimitGuard(),
         )
 
     def _stop_mocking(self, context: SandboxContext):
